@@ -272,6 +272,7 @@ PENDING_REASON = "check not built yet in this round (design in DESIGN.md section
 
 # Extensions made after the seeding waves (appended to the level text / note of the check).
 ADDENDA = {
+    "C12": " Configurations also vary the process environment (TERM_PROGRAM / TERM_PROGRAM_VERSION unset or set, judged against the documented fallback wherever XTVERSION is unsupported, disabled or unanswered, with a reply taking precedence) and the configured query timeout (0.05 / 0.1 / 0.5 s, + 0.03 in thorough) with reply delays on both sides of the 0.1 s default; elapsed virtual time is bounded by the configured timeout per query.",
     "C16": " Field values include equal-but-distinguishable pairs (True/1, float(default)/default, fresh equal tuples); "
            "alteration of existing objects is judged by identity of constituent namespaces and by the type of every "
            "field, not by ==.",
@@ -314,17 +315,21 @@ ADDENDA = {
     "C11": " Dynamic sizes (FIT, FIT_TO_WIDTH) with terminal resizes between and inside cached loops are part of the "
            "fault-free iteration searches (depth 7 / 8); for every draw(), a persistent standard-output failure from "
            "every write/flush index on (BrokenPipeError; ValueError of a closed stream in thorough), after which the "
-           "current frame, the size setting and every opened file must be as after any other draw.",
+           "current frame, the size setting and every opened file must be as after any other draw. "
+           "Also: TermImageUserWarning raised as an error combined with a native-animation size limit below the image size (the refused render must leave neither the raw file nor the image open), and two URL-sourced images with the same URL base name open side by side (each keeps its own, correct temp copy for exactly as long as it is open).",
     "C13": " Fault exceptions: KeyboardInterrupt, SystemExit, a custom BaseException subclass, OSError (+ termios.error, "
            "BrokenPipeError in thorough) at every point; draw() is exercised with a renderable whose finalizer hook "
-           "_finalize_render_data_ is itself a fault point.",
+           "_finalize_render_data_ is itself a fault point. "
+           "draw() is run with sys.stdout.fileno() in {0, 1, 101}.",
     "C14": " Including synchronized functions obtained by decorating the same function object twice or an already "
            "synchronized wrapper again, and reply schedules in which a reply (or its tail) arrives after its caller's "
-           "query timed out and before the next caller's query (the next caller must not read it as its own).",
+           "query timed out and before the next caller's query (the next caller must not read it as its own). "
+           "Plus rarely used entry points with their own synchronization (KittyImage.is_supported()'s two-step query after the lock migration, get_cell_size()'s three-reply query next to another caller with slow atomic replies); locks that other library modules imported by name are scheduled too and go stale at the first Process.start() as in reality.",
     "C15": " The probes' memoized bodies also return None / False / 0 / () (a falsy result is a result) and can be made "
            "to raise once; get_cell_size() can be interrupted at representative tty calls; a process start (cache "
            "migration) is part of the cell alphabet; the probe and cell searches are repeated in a world where standard "
-           "output is not the active terminal (shutil's size is a constant differing from every terminal size).",
+           "output is not the active terminal (shutil's size is a constant differing from every terminal size). "
+           "Also a get racing with enable_win_size_swap() followed by a sequential get (<= 2 preemptions), and a search in which a cell-size query times out and its replies arrive before the next query after a resize (nothing stale may be memoized).",
     "C18": " Identities kitty / kitty 0.25.0 / konsole / unrecognised terminal with forced kitty support / other; "
            "transitions include a neighbour on the image's rows changing, the public clear_images() in all its forms, and "
            "widgets of a subclass with format-spec z fields. A fault dimension: the k-th write of a redraw raises EAGAIN "
